@@ -1459,8 +1459,11 @@ def u_validation(W, sk):
     out = W.call(lambda: cls(**kw))
     bad = case in ("other_letters", "twin_time", "twin_extra", "time_not_first", "lifetime_other_letters", "lifetime_twin")
     if case in ("twin_time", "twin_extra", "lifetime_twin") and W.symbolic:
-        # a twin of *equal length* still is another dimension (other items); the symbolic twin has arbitrary length
-        pass
+        # the symbolic twin has arbitrary length and arbitrary items: on the paths where its items are exactly the
+        # original's it *is* the same dimension (case 'same' covers that); a twin proper differs somewhere
+        twin, orig = (T2, T) if case == "twin_time" else (R2, R)
+        if twin.items == orig.items:
+            return
     if bad:
         SL.check_raises(W, f"stock[{case}].refused", out, ValueError)
     else:
